@@ -11,6 +11,7 @@ from pyvc.proxies import And, Or, Not, Implies, SBool, SInt, SReal
 from pyvc import heap as H
 
 LEVEL = "proof"
+STANDIN_ALWAYS_THOROUGH = True      # its large bound takes seconds: used at both tiers
 EXPLANATION = ("PeriodicCallback._update_next proved over exact rationals (grid membership with an explicit witness k', "
                "monotonicity, skip-missed-periods bounds, clock-went-backwards branch); start/_schedule_next/_run/stop "
                "proved to keep at most one pending timer, to run the callback only while running and to reschedule only "
